@@ -3,7 +3,7 @@
    words starting with `@` name a local variable.  Output:
      EQUIV <items compared> <items outside the subset>  |  DIFF <name> word <k>: <a> vs <b>  |  SKIP *)
 From Coq Require Import List NArith Bool String Ascii.
-From RV Require Import Wire Alpha.
+From RV Require Import Wire Alpha Sem.
 Import ListNotations.
 Local Open Scope string_scope.
 Local Open Scope list_scope.
@@ -35,7 +35,224 @@ Definition resource_word (s : string) : bool :=
   | _ => String.prefix "intrinsic:BufferAddress" s || String.prefix "intrinsic:RWBufferAddress" s || String.prefix "intrinsic:ByteAddressBuffer" s || String.prefix "intrinsic:RWByteAddressBuffer" s
   end.
 
-Inductive verdict := VEq | VOutside | VDiff (msg : string) | VBad.
+(* ---- decoding a function dump into the tree of model/Sem.v.  The decoder is not trusted: its answer counts only if
+        encoding it gives the dump back (`decodes`), which is the hypothesis `l1 = enc_func f1` of C01_same_behaviour ---- *)
+Notation "x <- e ;; k" := (obind e (fun x => k)) (at level 61, e at next level, right associativity).
+
+Definition in_list (x : string) (l : list string) : bool := existsb (String.eqb x) l.
+
+Fixpoint take_words (n : nat) (l : list tok) : option (list string * list tok) :=
+  match n with
+  | O => Some ([], l)
+  | S m => match l with W x :: r => z <- take_words m r ;; Some (x :: fst z, snd z) | _ => None end
+  end.
+
+Fixpoint p_ty (fuel : nat) (l : list tok) : option (list string * list tok) :=
+  match fuel with
+  | O => None
+  | S f =>
+      match l with
+      | W "tv" :: r => Some (["tv"], r)
+      | W "tM" :: W a :: W b :: r => z <- p_ty f r ;; Some ("tM" :: a :: b :: fst z, snd z)
+      | W k :: W a :: r =>
+          if in_list k ["ts"; "tS"; "tE"; "tT"; "tP"; "tO0"] then Some ([k; a], r)
+          else if in_list k ["tV"; "tA"; "tQ"; "tO1"] then z <- p_ty f r ;; Some (k :: a :: fst z, snd z)
+          else None
+      | _ => None
+      end
+  end.
+
+Fixpoint p_const (fuel : nat) (l : list tok) : option (list string * list tok) :=
+  match fuel with
+  | O => None
+  | S f =>
+      match l with
+      | W "ce" :: W n :: r => z <- p_const f r ;; Some ("ce" :: n :: fst z, snd z)
+      | W k :: W v :: r => if in_list k ["cb"; "cil"; "ci"; "cu"; "cl"; "cul"; "cfl"; "ch"; "cf"; "cd"; "cs"] then Some ([k; v], r) else None
+      | _ => None
+      end
+  end.
+
+Definition count_of (s : string) : option nat := option_map N.to_nat (parse_N s).
+
+Fixpoint p_expr (fuel : nat) (l : list tok) : option (expr * list tok) :=
+  match fuel with
+  | O => None
+  | S f =>
+      let many := fix many (n : nat) (l : list tok) : option (list expr * list tok) :=
+        match n with
+        | O => Some ([], l)
+        | S m => z <- p_expr f l ;; y <- many m (snd z) ;; Some (fst z :: fst y, snd y)
+        end in
+      let dirs := fix dirs (n : nat) (l : list tok) : option (list (string * list string) * list tok) :=
+        match n with
+        | O => Some ([], l)
+        | S m => match l with
+                 | W d :: r => z <- p_ty f r ;; y <- dirs m (snd z) ;; Some ((d, fst z) :: fst y, snd y)
+                 | _ => None
+                 end
+        end in
+      match l with
+      | W "Loc" :: Id x :: r => Some (ELoc x, r)
+      | W "Glob" :: W n :: r => Some (EGlob n, r)
+      | W "Lit" :: r => z <- p_const f r ;; Some (ELeaf ("Lit" :: fst z), snd z)
+      | W "SizeOf" :: r => z <- p_ty f r ;; Some (ELeaf ("SizeOf" :: fst z), snd z)
+      | W "Tern" :: r => a <- p_expr f r ;; b <- p_expr f (snd a) ;; c <- p_expr f (snd b) ;; Some (ETern (fst a) (fst b) (fst c), snd c)
+      | W "Sub" :: r => a <- p_expr f r ;; b <- p_expr f (snd a) ;; Some (ESub (fst a) (fst b), snd b)
+      | W "Cast" :: r => t <- p_ty f r ;; e <- p_expr f (snd t) ;; Some (EAcc ("Cast" :: fst t) (fst e), snd e)
+      | W "Seq" :: W n :: r => k <- count_of n ;; z <- many k r ;; Some (ESeq (fst z), snd z)
+      | W "Op" :: W name :: W n :: r => k <- count_of n ;; z <- many k r ;; Some (EOp name (fst z), snd z)
+      | W "Ctor" :: r =>
+          t <- p_ty f r ;;
+          match snd t with
+          | W n :: r1 => k <- count_of n ;; ar <- take_words k r1 ;; z <- many k (snd ar) ;; Some (ECtor (fst t) (fst ar) (fst z), snd z)
+          | _ => None
+          end
+      | W "Call" :: W name :: W ct :: W np :: r =>
+          k <- count_of np ;; ds <- dirs k r ;;
+          match snd ds with
+          | W na :: r1 => j <- count_of na ;; z <- many j r1 ;; Some (ECall [name; ct] (fst ds) (fst z), snd z)
+          | _ => None
+          end
+      | W k :: W a :: r =>
+          if in_list k ["SMem"; "OMem"] then e <- p_expr f r ;; Some (EAcc [k; a] (fst e), snd e)
+          else if in_list k ["Swz"; "MSwz"] then
+            n <- count_of a ;; sl <- take_words n r ;; e <- p_expr f (snd sl) ;; Some (EAcc (k :: a :: fst sl) (fst e), snd e)
+          else if in_list k ["Mem"; "CVar"; "EVal"] then
+            match r with W b :: r1 => Some (ELeaf [k; a; b], r1) | _ => None end
+          else None
+      | _ => None
+      end
+  end.
+
+Fixpoint p_init (fuel : nat) (l : list tok) : option (init * list tok) :=
+  match fuel with
+  | O => None
+  | S f =>
+      match l with
+      | W "IN" :: r => Some (INone, r)
+      | W "IE" :: r => z <- p_expr f r ;; Some (IExp (fst z), snd z)
+      | W "IA" :: W n :: r =>
+          k <- count_of n ;;
+          z <- (fix many (n : nat) (l : list tok) : option (list init * list tok) :=
+                  match n with
+                  | O => Some ([], l)
+                  | S m => z <- p_init f l ;; y <- many m (snd z) ;; Some (fst z :: fst y, snd y)
+                  end) k r ;;
+          Some (IAgg (fst z), snd z)
+      | _ => None
+      end
+  end.
+
+Definition p_vardef (fuel : nat) (l : list tok) : option (vardef * list tok) :=
+  match l with
+  | Id x :: W sc :: r => t <- p_ty fuel r ;; i <- p_init fuel (snd t) ;; Some ((x, sc :: fst t, fst i), snd i)
+  | _ => None
+  end.
+
+Definition p_opt (fuel : nat) (l : list tok) : option (option expr * list tok) :=
+  match l with
+  | W "Y" :: r => z <- p_expr fuel r ;; Some (Some (fst z), snd z)
+  | W "N" :: r => Some (None, r)
+  | _ => None
+  end.
+
+Fixpoint p_stmt (fuel : nat) (l : list tok) : option (stmt * list tok) :=
+  match fuel with
+  | O => None
+  | S f =>
+      let block := fun (l : list tok) =>
+        match l with
+        | W n :: r =>
+            k <- count_of n ;;
+            (fix many (n : nat) (l : list tok) : option (list stmt * list tok) :=
+               match n with
+               | O => Some ([], l)
+               | S m => z <- p_stmt f l ;; y <- many m (snd z) ;; Some (fst z :: fst y, snd y)
+               end) k r
+        | _ => None
+        end in
+      match l with
+      | W "Attr" :: W a :: r => z <- p_stmt f r ;; Some (SAttr a (fst z), snd z)
+      | W "SExpr" :: r => z <- p_expr f r ;; Some (SExpr (fst z), snd z)
+      | W "SVar" :: r => z <- p_vardef f r ;; Some (SVar (fst z), snd z)
+      | W "SBlock" :: r => z <- block r ;; Some (SBlock (fst z), snd z)
+      | W "SIf" :: r => c <- p_expr f r ;; b <- block (snd c) ;; Some (SIf (fst c) (fst b), snd b)
+      | W "SIfElse" :: r => c <- p_expr f r ;; a <- block (snd c) ;; b <- block (snd a) ;; Some (SIfElse (fst c) (fst a) (fst b), snd b)
+      | W "SWhile" :: r => c <- p_expr f r ;; b <- block (snd c) ;; Some (SWhile (fst c) (fst b), snd b)
+      | W "SSwitch" :: r => c <- p_expr f r ;; b <- block (snd c) ;; Some (SSwitch (fst c) (fst b), snd b)
+      | W "SDo" :: r => b <- block r ;; c <- p_expr f (snd b) ;; Some (SDo (fst b) (fst c), snd c)
+      | W "SRet" :: r => z <- p_expr f r ;; Some (SRet (fst z), snd z)
+      | W "SCase" :: r => z <- p_const f r ;; Some (SWord ("SCase" :: fst z), snd z)
+      | W "SFor" :: r =>
+          fi <- match r with
+                | W "FE" :: r1 => Some (FEmpty, r1)
+                | W "FX" :: r1 => z <- p_expr f r1 ;; Some (FExp (fst z), snd z)
+                | W "FD" :: W n :: r1 =>
+                    k <- count_of n ;;
+                    z <- (fix many (n : nat) (l : list tok) : option (list vardef * list tok) :=
+                            match n with
+                            | O => Some ([], l)
+                            | S m => z <- p_vardef f l ;; y <- many m (snd z) ;; Some (fst z :: fst y, snd y)
+                            end) k r1 ;;
+                    Some (FDefs (fst z), snd z)
+                | _ => None
+                end ;;
+          c <- p_opt f (snd fi) ;; i <- p_opt f (snd c) ;; b <- block (snd i) ;;
+          Some (SFor (fst fi) (fst c) (fst i) (fst b), snd b)
+      | W k :: r => if in_list k ["SBreak"; "SContinue"; "SDiscard"; "SRet0"; "SDefault"] then Some (SWord [k], r) else None
+      | _ => None
+      end
+  end.
+
+Definition p_func (l : list tok) : option func :=
+  let fuel := S (List.length l) in
+  match l with
+  | W "F" :: r =>
+      t <- p_ty fuel r ;;
+      match snd t with
+      | W n :: r1 =>
+          k <- count_of n ;;
+          ps <- (fix many (n : nat) (l : list tok) : option (list param * list tok) :=
+                   match n with
+                   | O => Some ([], l)
+                   | S m =>
+                       match l with
+                       | Id x :: W d :: r2 =>
+                           ty <- p_ty fuel r2 ;; o <- p_opt fuel (snd ty) ;; y <- many m (snd o) ;;
+                           Some ((x, d, fst ty, fst o) :: fst y, snd y)
+                       | _ => None
+                       end
+                   end) k r1 ;;
+          match snd ps with
+          | W nb :: r2 =>
+              j <- count_of nb ;;
+              b <- (fix many (n : nat) (l : list tok) : option (list stmt * list tok) :=
+                      match n with
+                      | O => Some ([], l)
+                      | S m => z <- p_stmt fuel l ;; y <- many m (snd z) ;; Some (fst z :: fst y, snd y)
+                      end) j r2 ;;
+              match snd b with
+              | [] => Some {| f_ret := fst t; f_params := fst ps; f_body := fst b |}
+              | _ => None
+              end
+          | _ => None
+          end
+      | _ => None
+      end
+  | _ => None
+  end.
+
+Definition tok_eqb (a b : tok) : bool :=
+  match a, b with Id x, Id y => N.eqb x y | W x, W y => String.eqb x y | _, _ => false end.
+Fixpoint toks_eqb (a b : list tok) : bool :=
+  match a, b with [] , [] => true | x :: r, y :: t => tok_eqb x y && toks_eqb r t | _, _ => false end.
+
+(* the dump is the encoding of a function tree: the decoder's answer, checked *)
+Definition decodes (l : list tok) : bool :=
+  match p_func l with Some f => toks_eqb (enc_func f) l | None => false end.
+
+Inductive verdict := VEq (fn decoded : bool) | VOutside | VDiff (msg : string) | VBad.
 
 Definition check_item (w : list string) : verdict :=
   match w with
@@ -43,7 +260,7 @@ Definition check_item (w : list string) : verdict :=
       match split_at "||" r [] [] with
       | [a; b] =>
           match pair [] 0 (map tok_of a) (map tok_of b) with
-          | Same _ => VEq
+          | Same _ => let isfn := String.prefix "fn_" name in VEq isfn (isfn && decodes (map tok_of a))
           | Differ pos x y =>
               if existsb resource_word a || existsb resource_word b then VOutside
               else VDiff (String.append name (String.append " word " (String.append (show_N pos) (String.append ": " (String.append (show_tok x) (String.append " vs " (show_tok y)))))))
@@ -53,11 +270,12 @@ Definition check_item (w : list string) : verdict :=
   | _ => VBad
   end.
 
-Fixpoint summarise (l : list verdict) (eq out : N) : string :=
+(* EQUIV <items compared> <items outside the subset> <functions decoded into trees> <functions not decoded> *)
+Fixpoint summarise (l : list verdict) (eq out dec undec : N) : string :=
   match l with
-  | [] => String.append "EQUIV " (String.append (show_N eq) (String.append " " (show_N out)))
-  | VEq :: r => summarise r (eq + 1) out
-  | VOutside :: r => summarise r eq (out + 1)
+  | [] => String.append "EQUIV " (String.append (show_N eq) (String.append " " (String.append (show_N out) (String.append " " (String.append (show_N dec) (String.append " " (show_N undec)))))))
+  | VEq isfn d :: r => summarise r (eq + 1) out (if d then dec + 1 else dec) (if isfn && negb d then undec + 1 else undec)
+  | VOutside :: r => summarise r eq (out + 1) dec undec
   | VDiff m :: _ => String.append "DIFF " m
   | VBad :: _ => "BAD-DUMP"
   end.
@@ -66,7 +284,7 @@ Definition run_top (s : string) : string :=
   match words s with
   | "PAIRS" :: _ :: ";;" :: r =>
       let items := filter (fun l => match l with [] => false | _ => true end) (split_at ";;" r [] []) in
-      summarise (map check_item items) 0 0
+      summarise (map check_item items) 0 0 0 0
   | _ => "SKIP"
   end.
 
